@@ -1,10 +1,18 @@
 import OpusModel.SilkParams
 import OpusModel.SilkSynthIdx
+import OpusModel.SilkSynthIdxFrame
 import Driver.Util
 /- Suite `silkparams` (property C18): SILK side-information dequantisers.
    Lists are `a,b,c`; codebooks are `nbmb` / `wb`. -/
 namespace Driver.SuiteSilkParams
 open Opus Opus.SilkParams Driver
+
+def plcTieArrays : List Opus.SilkSynthIdx.Arr :=
+  [.sLTP, .sLTP_Q14, .exc_buf, .exc_Q14, .outBuf, .sLPC_Q14_buf, .plcLtp, .prevLPC, .prevGain, .predCoef, .ltpCoef,
+   .gains, .pitchL, .xq]
+def topTieArrays : List Opus.SilkSynthIdx.Arr := [.outBuf, .xq, .pitchL]
+def cngTieArrays : List Opus.SilkSynthIdx.Arr :=
+  [.cngExcBuf, .cngSmthNlsf, .cngSynth, .cngSig, .prevNlsf, .gains, .exc_Q14, .prevGain, .xq]
 
 def parseCB : String → Option NlsfCB
   | "nbmb" => some cbNbMb
@@ -150,6 +158,33 @@ def handle : List String → String
           if r.2 then "ABORT" else s!"OK {Opus.SilkSynthIdx.extentsStr r.1 coreTieArrays}"
       | _, _, _, _, _ => "bad-op"
     | _, _, _, _, _, _ => "bad-op"
+  | ["synthframe", fs, nb, loss, prev, lagPrev, ffar, plcFs, pq8, plcNb, plcS, lastLost, plcSeed, cngFs, cngSeed,
+     lost, sig, qoff, interp, pl, ltp, gains, gd, ad, lowFirst] =>
+    match [fs, loss, prev, lagPrev, ffar, plcFs, pq8, plcNb, plcS, lastLost, plcSeed, cngFs, cngSeed, lost, sig, qoff,
+           interp, lowFirst].mapM parseInt, parseNat nb, parseIntList pl, parseIntList ltp, parseIntList gains, parseBits gd,
+          parseBits ad with
+    | some [fs, loss, prev, lagPrev, ffar, plcFs, pq8, plcNb, plcS, lastLost, plcSeed, cngFs, cngSeed, lost, sig, qoff,
+            interp, lowFirst], some nb, some pl, some ltp, some gains, some gd, some ad =>
+      if pl.length ≠ 4 ∨ ltp.length ≠ 20 ∨ gains.length ≠ 4 ∨ gd.length ≠ 4 ∨ ad.length ≠ 4 ∨ (nb ≠ 2 ∧ nb ≠ 4) ∨
+          (fs ≠ 8 ∧ fs ≠ 12 ∧ fs ≠ 16) then "bad-op"
+      else
+        let st : Opus.SilkSynthIdx.DecSt :=
+          { fsKHz := fs, nbSubfr := nb, lossCnt := loss, prevSignalType := prev, lagPrev := lagPrev,
+            firstFrameAfterReset := ffar ≠ 0, plcFs := plcFs, pitchLQ8 := pq8, plcNb := plcNb, plcSubfr := plcS,
+            lastFrameLost := lastLost ≠ 0, plcSeed := plcSeed, cngFs := cngFs, cngSeed := cngSeed }
+        let fi : Opus.SilkSynthIdx.FrameIn :=
+          { lost := lost ≠ 0, signalType := sig, quantOffsetType := qoff, interp := interp ≠ 0, pitchL := pl,
+            ltpCoef := ltp, gains := gains, gainDiff := gd, adjNe := ad, lowFirst := lowFirst ≠ 0 }
+        let r := Opus.SilkSynthIdx.frameStep st fi
+        if r.1.aborted then "ABORT"
+        else
+          let e := Opus.SilkSynthIdx.extentsStr
+          let b (x : Bool) : Int := if x then 1 else 0
+          let t := r.2
+          let g := match Opus.SilkSynthIdx.extent r.1.glue .xq false with
+            | none => "-" | some (lo, hi) => s!"{lo}..{hi}"
+          s!"OK core\{{e r.1.core coreTieArrays}} plc\{{e r.1.plc plcTieArrays}} top\{{e r.1.top topTieArrays}} cng\{{e r.1.cng cngTieArrays}} glue\{xq:r={g},w=ok} st={t.fsKHz} {t.nbSubfr} {t.lossCnt} {t.prevSignalType} {t.lagPrev} {b t.firstFrameAfterReset} {t.plcFs} {t.pitchLQ8} {t.plcNb} {t.plcSubfr} {b t.lastFrameLost} {t.plcSeed} {t.cngFs} {t.cngSeed}"
+    | _, _, _, _, _, _, _ => "bad-op"
   | _ => "bad-op"
 
 end Driver.SuiteSilkParams
